@@ -949,3 +949,118 @@ def inlined(units):
         out[name] = _inl_cache[key][1]
         changed = changed or out[name] is not u
     return out if changed else units
+
+
+# ---- anchors that moved: delegation and renaming ----------------------------------------------------------------------
+
+def fold_delegations(u, unit_name):
+    """view of u in which
+      - a function of the pinned tree whose body has become `return g(<its parameters in order>[, constants]);` for a static g
+        the pinned tree does not have, called by nothing else (but itself), *is* g: g's body and parameters under the anchor's
+        name, self-calls renamed (cJSON_Compare -> compare_items(a, b, cs, 0));
+      - a function of the pinned tree that is gone, while exactly one function the pinned tree does not have is called by
+        (some of) the anchor's former callers and by nobody else but itself, is that function under its old name
+        (cJSON_Duplicate_rec -> static duplicate_item).
+    Renaming changes no behaviour; the rules find their anchors again.  u itself when nothing applies."""
+    from .extract import known_functions
+    import json as _json
+    import os as _os
+    known = set(known_functions().get(unit_name, ()))
+    if not known:
+        return u
+    try:
+        with open(_os.path.join(_os.path.dirname(_os.path.abspath(__file__)), 'known_callers.json')) as fh:
+            kcallers = _json.load(fh).get(unit_name, {})
+    except (IOError, OSError):
+        kcallers = {}
+    callers = {}
+    for f in u.function_list:
+        if f.body is None:
+            continue
+        for c in f.calls():
+            cn = callee_name(c)
+            if cn in u.functions:
+                callers.setdefault(cn, set()).add(f.name)
+    rename = {}      # new name -> anchor name
+    drop = set()
+    for F in u.function_list:
+        if F.name not in known or F.body is None:
+            continue
+        c = _thin_call(F)
+        if c is None:
+            continue
+        g = u.functions.get(callee_name(c))
+        if g is None or g.name in known or not g.static or g.body is None or len(c['args']) < len(F.params):
+            continue
+        if callers.get(g.name, set()) - {g.name} != {F.name}:
+            continue
+        inorder = all(strip_casts(a).get('k') == 'ref' and strip_casts(a).get('d') == p['d'] for p, a in zip(F.params, c['args']))
+        rest_const = all(_is_constant(a) for a in c['args'][len(F.params):])
+        if inorder and rest_const:
+            rename[g.name] = F.name
+            drop.add(F.name)
+    for name in sorted(known - set(u.functions)):
+        former = set(kcallers.get(name, ())) - {name}
+        cands = []
+        for g in u.function_list:
+            if g.name in known or g.body is None or g.name in rename:
+                continue
+            cs = callers.get(g.name, set()) - {g.name}
+            if cs and cs <= (former | {n for n in rename}) and (cs & former):
+                cands.append(g)
+        if len(cands) > 1:
+            # several new functions under the same callers: the one with the anchor's return type and leading parameter types
+            try:
+                with open(_os.path.join(_os.path.dirname(_os.path.abspath(__file__)), 'known_signatures.json')) as fh:
+                    sig = _json.load(fh).get(unit_name, {}).get(name)
+            except (IOError, OSError):
+                sig = None
+            if sig is not None:
+                def matches(g):
+                    ps = [u.ty(p['ty'])['s'] for p in g.params]
+                    return u.ty(g.ret)['s'] == sig['ret'] and ps and ps[0] == (sig['params'] or [None])[0]
+                cands = [g for g in cands if matches(g)]
+        if len(cands) == 1:
+            rename[cands[0].name] = name
+    if not rename:
+        return u
+
+    def ren(node):
+        if isinstance(node, list):
+            return [ren(x) for x in node]
+        if not isinstance(node, dict):
+            return node
+        out = {k: ren(v) for k, v in node.items()}
+        if out.get('k') == 'call' and out.get('callee') in rename:
+            out['callee'] = rename[out['callee']]
+        if out.get('k') == 'ref' and out.get('dk') == 'fn' and out.get('n') in rename:
+            out['n'] = rename[out['n']]
+        return out
+    view = copy.copy(u)
+    for attr in [a for a in vars(view) if a.startswith('_')]:
+        delattr(view, attr)
+    view.functions = {}
+    view.function_list = []
+    for f in u.function_list:
+        if f.name in drop:
+            continue
+        if f.body is not None and (f.name in rename or any(callee_name(c) in rename for c in f.calls())):
+            raw = dict(f.raw)
+            raw['body'] = ren(f.body)
+            if f.name in rename:
+                raw['name'] = rename[f.name]
+                raw['renamed_from'] = f.name
+                if rename[f.name] in drop:
+                    # the anchor was public: the folded function is what the outside calls
+                    old = u.functions[rename[f.name]]
+                    raw['static'] = old.raw['static']
+                    raw['external'] = old.raw['external']
+                    raw['in_header'] = old.raw.get('in_header', False)
+            nf = Function(view, raw)
+        else:
+            nf = f
+        view.functions[nf.name] = nf
+        view.function_list.append(nf)
+    view.by_decl = {fn.d: fn for fn in view.function_list}
+    view.renamed = dict(rename)
+    return view
